@@ -419,6 +419,18 @@ func execC20Webhook(sc c20WebhookScenario) (res pbt.Result) {
 	ctx = notify.WithReceiverName(ctx, sc.Receiver)
 	ctx = notify.WithGroupLabels(ctx, toLabelSet(sc.GroupLabels))
 	ctx = notify.WithNotificationReason(ctx, notify.ReasonFirstNotification)
+	// what the dedup stage of the real pipeline leaves in the context: the hashes of the WHOLE batch's firing and
+	// resolved alerts (the body's status must still follow the alerts it lists, i.e. the first max_alerts)
+	var fh, rh []uint64
+	for i, a := range built {
+		if a.Resolved() {
+			rh = append(rh, uint64(1000+i))
+		} else {
+			fh = append(fh, uint64(1000+i))
+		}
+	}
+	ctx = notify.WithFiringAlerts(ctx, fh)
+	ctx = notify.WithResolvedAlerts(ctx, rh)
 	retry, nerr := n.Notify(ctx, built...)
 	timedOut := ctx.Err() != nil
 	cancel()
